@@ -510,6 +510,59 @@ func extractC09() *lean {
 	}
 	l.def("managedValidators", "List String", leanStrList(managed), managed)
 
+	// verifyThumbprint must not depend on the (attacker chosen) type text, and has exactly one `return nil` (the last statement)
+	typeDep, nilReturns, lastIsNil := false, 0, false
+	if fd := c09Method(val, "verificationMethodValidator", "verifyThumbprint"); fd != nil {
+		ast.Inspect(fd, func(n ast.Node) bool {
+			switch x := n.(type) {
+			case *ast.SelectorExpr:
+				if x.Sel.Name == "Type" {
+					typeDep = true
+				}
+			case *ast.ReturnStmt:
+				if len(x.Results) == 1 && exprString(x.Results[0]) == "nil" {
+					nilReturns++
+				}
+			}
+			return true
+		})
+		if k := len(fd.Body.List); k > 0 {
+			if r, ok := fd.Body.List[k-1].(*ast.ReturnStmt); ok && len(r.Results) == 1 && exprString(r.Results[0]) == "nil" {
+				lastIsNil = true
+			}
+		}
+	}
+	l.def("verifyThumbprintLooksAtType", "Bool", map[bool]string{true: "true", false: "false"}[typeDep], typeDep)
+	onlyFinal := nilReturns == 1 && lastIsNil
+	l.def("verifyThumbprintSucceedsOnlyAtTheEnd", "Bool", map[bool]string{true: "true", false: "false"}[onlyFinal], onlyFinal)
+
+	// dag/verifier.go: the signature verifier has no success exit before jws.Verify: the function literal's last
+	// statement returns the error of jws.Verify and no other return statement returns nil
+	_, ver := parseFile("network/dag/verifier.go")
+	verNil, verLast := 0, ""
+	if fd := funcDecl(ver, "NewTransactionSignatureVerifier"); fd != nil {
+		ast.Inspect(fd, func(n ast.Node) bool {
+			fl, ok := n.(*ast.FuncLit)
+			if !ok {
+				return true
+			}
+			ast.Inspect(fl.Body, func(m ast.Node) bool {
+				if r, ok := m.(*ast.ReturnStmt); ok && len(r.Results) == 1 && exprString(r.Results[0]) == "nil" {
+					verNil++
+				}
+				return true
+			})
+			k := len(fl.Body.List)
+			if k >= 2 {
+				verLast = c09Src(fl.Body.List[k-2]) + " ; " + c09Src(fl.Body.List[k-1])
+			}
+			return false
+		})
+	}
+	l.def("verifierNilReturns", "Nat", strconv.Itoa(verNil), verNil)
+	endsOK := strings.HasPrefix(verLast, "_, err := jws.Verify(transaction.Data(), ") && strings.HasSuffix(verLast, " ; return err")
+	l.def("verifierEndsWithJwsVerify", "Bool", map[bool]string{true: "true", false: "false"}[endsOK], verLast)
+
 	// ---- dag/keys.go: the only error the key resolver moves on from
 	_, keys := parseFile("network/dag/keys.go")
 	keyCont := ""
